@@ -285,12 +285,11 @@ func C08(c *Ctx) {
 				}
 				nGo++
 				key := shortFn(fn) + ": goroutine at " + fmt.Sprint(nGo)
-				mc, ok := g.Call.Value.(*ssa.MakeClosure)
-				if !ok {
-					r.Unknown("R08.2", key, c.P.Pos(g.Pos()), "goroutine body is not a closure literal")
+				cl, _ := goBody(g)
+				if cl == nil {
+					r.Unknown("R08.2", key, c.P.Pos(g.Pos()), "goroutine body is neither a closure literal nor a statically known function of the module")
 					continue
 				}
-				cl := mc.Fn.(*ssa.Function)
 				key = shortFn(fn) + ": goroutine " + cl.Name()
 				if d, _ := recoverDefer(cl); d != nil {
 					ok, pos, why := c.recoversFirstGo(cl, d)
@@ -1285,7 +1284,6 @@ func (c *Ctx) c08NilCallee() {
 	}
 	r.Floor("R08.4", "uses of the optional callee", n, 2)
 }
-
 
 // c08BrokerIndices: R08.9.
 func (c *Ctx) c08BrokerIndices() {
